@@ -201,7 +201,13 @@ func TestVerif_C33(t *testing.T) {
 			res.Violate("repair-index/fails", fmt.Sprintf("scenario %d (%s): repair index failed: %v :: %s", seed, desc, err, vTail(e.lastErr, 300)), map[string]any{"scenario": seed})
 		} else {
 			if diffs := vIndexVsPacks(t, e); len(diffs) > 0 {
-				res.Violate("repair-index/index-differs-from-packs", fmt.Sprintf("scenario %d (%s): %v", seed, desc, diffs), map[string]any{"scenario": seed})
+				key := "repair-index/index-differs-from-packs"
+				if !opts.ReadAllPacks && strings.Contains(fmt.Sprint(damage), "bogus-index-wrong-offsets") && strings.Contains(diffs[0], "do not lead to its intact blobs") {
+					// without --read-all-packs only packs that are unknown or whose size (header + sum of the
+					// entry lengths) disagrees are re-read: entries with right lengths but wrong offsets survive
+					key = "repair-index/wrong-offsets-with-right-lengths-survive-without-read-all-packs"
+				}
+				res.Violate(key, fmt.Sprintf("scenario %d (%s): %v", seed, desc, diffs), map[string]any{"scenario": seed})
 			}
 			after := e.store.Names(backend.PackFile)
 			if strings.Join(packsBefore, ",") != strings.Join(after, ",") {
